@@ -74,6 +74,8 @@ class Model(object):
         self.latches = []     # (d, q, init)
         self.flops = []       # (cell, d, e, s, r, q)
         self.insts = []       # (model, {formal: actual})
+        self.clk = 'clk'      # name of the clock port
+        self.gclk = 'clk'     # the net the sequential elements use (a buffered copy of clk in some models)
 
 
 def rand_cover(rng, avail):
@@ -92,6 +94,9 @@ def rand_cover(rng, avail):
     return ins, rows
 
 
+CLKNAMES = ['clk', 'C', 'ck', 'CLK']
+
+
 def gen_model(rng, name, nin, submodels, top, ncov, nflops, vector_io):
     m = Model(name)
     if top and vector_io:
@@ -102,6 +107,14 @@ def gen_model(rng, name, nin, submodels, top, ncov, nflops, vector_io):
         m.inputs = bits_ + ['x%d' % i for i in range(max(1, nin - min(w, 3)))]
     else:
         m.inputs = ['x%d' % i for i in range(nin)]
+    if not top:
+        # names are local to a model: the clock formal of one model may be a data port of another
+        m.clk = rng.choice(CLKNAMES)
+        if rng.random() < 0.5:
+            m.inputs[rng.randrange(len(m.inputs))] = rng.choice([n for n in CLKNAMES if n != m.clk])
+    m.gclk = m.clk
+    if rng.random() < 0.3:
+        m.gclk = 'g_%s' % m.clk       # clock routed through a buffer (.names clk g_clk / 1 1)
     qs = ['q%d' % i for i in range(nflops)]
     avail = list(m.inputs) + qs
     sigs = []
@@ -142,17 +155,33 @@ def gen_model(rng, name, nin, submodels, top, ncov, nflops, vector_io):
             nm = 'vo[%d]' % i
             m.covers.append(([outs[i % 2]] if wout == 2 else [rng.choice(cands)], nm, ['1']))
             vb.append(nm)
+        if rng.random() < 0.5:
+            # a second bit-indexed output vector (declared after, or interleaved with, the first)
+            vp = []
+            for i in range(rng.choice([2, 3])):
+                nm = 'vp[%d]' % i
+                m.covers.append(([rng.choice(cands)], nm, ['1']))
+                vp.append(nm)
+            vb = vb + vp if rng.random() < 0.6 else [x for pair in zip(vb, vp) for x in pair] + vb[len(vp):] + vp[len(vb):]
         outs = vb + outs[2:]
     m.outputs = outs
     return m
+
+
+def clk_pos(n, name):
+    # position of the clock connection among the formal=actual pairs (deterministic per model)
+    return (len(name) * 7 + n) % (n + 1)
 
 
 def to_blif(models):
     out = []
     for m in models:
         out.append('.model %s' % m.name)
-        out.append('.inputs %s' % ' '.join(m.inputs + (['clk'] if True else [])))
+        out.append('.inputs %s' % ' '.join(m.inputs + [m.clk]))
         out.append('.outputs %s' % ' '.join(m.outputs))
+        if m.gclk != m.clk:
+            out.append('.names %s %s' % (m.clk, m.gclk))
+            out.append('1 1')
         for ins, o, rows in m.covers:
             out.append('.names %s' % ' '.join(list(ins) + [o]))
             if rows == 'TRUE':
@@ -161,13 +190,15 @@ def to_blif(models):
                 for r in rows:
                     out.append('%s 1' % r)
         for d, q, init in m.latches:
-            out.append('.latch %s %s re clk %s' % (d, q, init))
+            out.append('.latch %s %s re %s %s' % (d, q, m.gclk, init))
         for cell, d, e, s, r, q in m.flops:
             he, hs, hr = cell_pins(cell)
-            pins = 'C=clk D=%s' % d + (' E=%s' % e if he else '') + ' Q=%s' % q + (' S=%s' % s if hs else '') + (' R=%s' % r if hr else '')
+            pins = 'C=%s D=%s' % (m.gclk, d) + (' E=%s' % e if he else '') + ' Q=%s' % q + (' S=%s' % s if hs else '') + (' R=%s' % r if hr else '')
             out.append('.subckt %s %s' % (cell, pins))
         for sm, fa in m.insts:
-            out.append('.subckt %s %s clk=clk' % (sm.name, ' '.join('%s=%s' % (f, a) for f, a in fa.items())))
+            pairs = ['%s=%s' % (f, a) for f, a in fa.items()]
+            pairs.insert(clk_pos(len(pairs), sm.name), '%s=%s' % (sm.clk, m.gclk))
+            out.append('.subckt %s %s' % (sm.name, ' '.join(pairs)))
         out.append('.end')
         out.append('')
     return '\n'.join(out)
@@ -252,6 +283,12 @@ def check_blif(ctx, k):
             mid = gen_model(rng, 'mid', rng.randint(1, 3), [leaf], False, rng.randint(1, 2), rng.choice([0, 1]), False)
             subs = [mid, leaf] if rng.random() < 0.5 else [leaf, mid]
     usable = [s for s in subs if s.name == 'mid'] or subs
+    if subs and rng.random() < 0.5:
+        # a second, independent sub-model instantiated next to the first (either order)
+        other = gen_model(rng, 'other', rng.randint(1, 3), [], False, rng.randint(1, 3), rng.choice([0, 0, 1]), False)
+        subs.append(other)
+        usable = usable + [other]
+        rng.shuffle(usable)
     top = gen_model(rng, 'top', rng.randint(2, 4), usable if rng.random() < 0.8 else [], True, rng.randint(2, 6),
                     rng.randint(0, 3), rng.random() < 0.5)
     models = [top] + subs
